@@ -71,12 +71,25 @@ def _child_result(d, choice):
     return (choice, fp, list(d.violations), dict(d.stats), nxt, d.observe() if _OPTS.get("observe") else None)
 
 
+def _make(history):
+    """A list of factories = several searches in one pool; the history then starts with ["@", index]."""
+    if isinstance(_FACTORY, (list, tuple)):
+        return _FACTORY[history[0][1]]()
+    return _FACTORY()
+
+
+def _steps(history):
+    if history and isinstance(history[0], (list, tuple)) and len(history[0]) == 2 and history[0][0] == "@":
+        return history[1:]
+    return history
+
+
 def _expand(arg):
     """Replay `history`, then execute every enabled choice from that state."""
     history, expect_fp = arg
-    d = _FACTORY()
+    d = _make(history)
     d.boot()
-    for c in history:
+    for c in _steps(history):
         d.step(c)
     if expect_fp is not None:
         got = fp_hash(d.fingerprint())
@@ -120,9 +133,9 @@ def _expand(arg):
             if res and res[0] == "CRASH":
                 return ("CRASH", history + [c], res[2], res[3])
         else:
-            d2 = _FACTORY()
+            d2 = _make(history)
             d2.boot()
-            for h in history:
+            for h in _steps(history):
                 d2.step(h)
             res = _child_result(d2, c)
             d2.close()
@@ -156,10 +169,23 @@ def bfs(factory, depth, ctx=None, workers=None, fork=True, max_states=None, obse
     t0 = time.time()
     # initial state (computed in a worker so the master never holds a live system)
     with mp.get_context("fork").Pool(workers, initializer=_init_worker, initargs=(factory, opts)) as pool:
-        root = pool.apply(_root_fp)
-        seen = {root: 0}
-        frontier = [([], root)]
-        res.states = 1
+        if isinstance(factory, (list, tuple)):
+            frontier = []
+            seen = {}
+            for i in range(len(factory)):
+                h0 = [["@", i]]
+                fp = pool.apply(_root_fp, (h0,))
+                # states of different searches never merge
+                seen[(i, fp)] = 0
+                frontier.append((h0, fp))
+            res.states = len(frontier)
+            multi = True
+        else:
+            root = pool.apply(_root_fp)
+            seen = {root: 0}
+            frontier = [([], root)]
+            res.states = 1
+            multi = False
         for level in range(depth):
             if not frontier:
                 res.frontier_emptied = True
@@ -185,8 +211,9 @@ def bfs(factory, depth, ctx=None, workers=None, fork=True, max_states=None, obse
                             res.violations[sig] = (what, h2)
                     if obs is not None and len(res.samples) < 5 and level >= min(2, depth - 1):
                         res.samples.append({"history": h2, "observed": obs})
-                    if fp not in seen:
-                        seen[fp] = level + 1
+                    key = (history[0][1], fp) if multi else fp
+                    if key not in seen:
+                        seen[key] = level + 1
                         res.states += 1
                         res.max_depth = level + 1
                         if not viol[pre:]:      # do not expand beyond a violating step
@@ -204,8 +231,8 @@ def bfs(factory, depth, ctx=None, workers=None, fork=True, max_states=None, obse
     return res
 
 
-def _root_fp():
-    d = _FACTORY()
+def _root_fp(history=()):
+    d = _make(list(history))
     d.boot()
     fp = fp_hash(d.fingerprint())
     d.close()
